@@ -9,6 +9,7 @@ from sa.flow import show, sig, subterms
 from sa.model import AnalysisError, norm, parent, walk_no_nested
 
 from .common import (
+    lazy_reuse_rule,
     atomic_deps,
     include_rules,
     EXIT_CODES_SPEC,
@@ -742,6 +743,8 @@ def run(report, p):
             else:
                 r11.check(False, f, call, f"the logger is given printf arguments together with a format string that is built at run time (`{norm(fmt)[:60]}`): a `%` in an interpolated value (a file name) is taken as a placeholder and the formatting raises - the command dies with exit 1 instead of reporting its own verdict", construct="logger call: run-time text used as printf format")
     r11.check(True, None, None, "")
+
+    lazy_reuse_rule(report, p, 'R3.13', [need(cmds, n_).qual for n_ in ('create', 'verify', 'diff')], 'create / verify / diff')
 
     # ---- rules shared with other properties (same mechanism, same rule, reported under every property it can break)
     include_rules(report, p, 'c05', ['R5.7'], 'what counts as a nested history decides which folders are verified against which history and which tree makes the loader refuse: exactly the directories that contain an ascmhl FOLDER (as listed by the walk)')
